@@ -510,6 +510,19 @@ class Template:
             return None
         return self.xfa.get(name)
 
+    def title(self):
+        """dc:title of the XMP metadata packet (None if the document has none)."""
+        for v in self.pdf.objs.values():
+            if isinstance(v, Stream) and v.d.get('Type') == 'Metadata':
+                try:
+                    body = v.data()
+                except Exception:
+                    continue
+                m = re.search(rb'<dc:title>.*?<rdf:li[^>]*>(.*?)</rdf:li>', body, re.S)
+                if m:
+                    return m.group(1).decode('utf-8', 'replace').strip()
+        return None
+
     def page_text(self):
         """Best-effort text of the page content streams (literal strings in TJ/Tj
         operators; works for the IRS forms' simple fonts)."""
